@@ -457,41 +457,49 @@ def single_curve_projection(ctx, out):
 
 
 def r09_4(ctx):
+    """abstract run (W) of JordanCurve.rotate on recording vertices: the angle every control point receives is the
+    caller's angle, multiplied by pi/180 exactly when `degrees` is true -- whatever the spelling of the conversion"""
+    from verifkit.absrun import Obj, Runner, StandIn
+    from verifkit.finite import Raised, Undecided
     out = Outcome("R09.4", "the angle is multiplied by pi/180 iff `degrees`", floor=1)
     fn = ctx.fn("jordancurve.JordanCurve.rotate")
-    ps = fn.params
-    if "degrees" not in ps or len(ps) < 3:
-        out.undecided(fn.qname, f"unexpected signature {ps}", where=fn.where())
-        return out
-    ang, deg = ps[1], "degrees"
     factor = math.pi / 180
-    found = None
-    for n in ast.walk(fn.node):
-        if isinstance(n, ast.If):
-            t, neg = pat._strip_not(n.test)
-            is_flag = pat.is_name(t, deg) or (isinstance(t, ast.Compare) and pat.is_name(t.left, deg)
-                                              and isinstance(t.comparators[0], ast.Constant)
-                                              and t.comparators[0].value is True)
-            if not is_flag:
-                continue
-            branch, other = (n.orelse, n.body) if neg else (n.body, n.orelse)
-            conv = _conversion(branch, ang)
-            conv_other = _conversion(other, ang)
-            found = (conv, conv_other, n)
-        if isinstance(n, ast.IfExp) and pat.is_name(n.test, deg):
-            found = (_conv_expr(n.body, ang), _conv_expr(n.orelse, ang), n)
-    if found is None:
-        out.bad(fn.qname, "the `degrees` flag does not control any conversion of the angle", where=fn.where())
-        return out
-    conv, conv_other, node = found
-    if conv is None:
-        out.undecided(fn.qname, "degree conversion idiom not recognised", where=fn.where(node))
-    elif abs(conv - factor) > 1e-15 * factor * 4:
-        out.bad(fn.qname, f"with degrees=True the angle is multiplied by {conv!r} instead of pi/180", where=fn.where(node))
-    elif conv_other not in (None, 1.0, 1):
-        out.bad(fn.qname, f"with degrees=False the angle is multiplied by {conv_other!r}", where=fn.where(node))
+
+    class Vtx(StandIn):
+        def __init__(self):
+            self.got = []
+
+        def rotate(self, angle, *a, **k):
+            self.got.append((angle, a, tuple(sorted(k.items()))))
+            return self
+    ext = {"np.deg2rad": lambda x: float(x) * factor, "np.radians": lambda x: float(x) * factor,
+           "math.radians": math.radians, "np.float64": float, "np.asarray": lambda x, dtype=None: float(x),
+           "math.degrees": math.degrees}
+    verdict = None
+    for angle in (30.0, 90, -45.5):
+        for mode, args, kwargs, deg in (("degrees=True", (angle, True), {}, True), ("degrees=True (keyword)", (angle,), {"degrees": True}, True),
+                                        ("degrees=False", (angle, False), {}, False), ("default", (angle,), {}, False)):
+            vs = tuple(Vtx() for _ in range(3))
+            S = Obj("J", vertices=vs, segments=tuple(Obj(f"s{i}", ctrlpoints=(vs[i], vs[(i + 1) % 3])) for i in range(3)))
+            try:
+                Runner(ctx, set(), lambda rn, ev, c, n, r, a, k: True if n == "isinstance" else NotImplemented,
+                       ext=ext).call_fn(fn, [S] + list(args), dict(kwargs))
+            except (Undecided, Raised) as ex:
+                out.undecided(fn.qname, f"rotate({angle}, {mode}): {ex}", where=fn.where())
+                return out
+            for v in vs:
+                for got, a, k in v.got:
+                    passed_deg = (a[0] if a else dict(k).get("degrees", False))
+                    eff = float(got) * (factor if passed_deg else 1.0)
+                    want = float(angle) * (factor if deg else 1.0)
+                    if abs(eff - want) > 1e-12 * max(1.0, abs(want)) and verdict is None:
+                        ratio = eff / float(angle)
+                        verdict = (f"with {mode} the angle is multiplied by {ratio!r} instead of "
+                                   f"{'pi/180' if deg else '1'}")
+    if verdict:
+        out.bad(fn.qname, verdict, where=fn.where())
     else:
-        out.ok(fn.qname, "angle *= pi/180 iff degrees", where=fn.where(node))
+        out.ok(fn.qname, "angle *= pi/180 iff degrees", where=fn.where())
     return out
 
 
